@@ -153,6 +153,8 @@ def corrmtx(x_input, m, method='autocorrelation'):
         x = numpy.array(x_input)
     else:
         x = x_input.copy()
+    if x.dtype.kind in 'iub':
+        x = x.astype(float)   # the other methods already return floating point matrices
 
 
     if numpy.iscomplexobj(x):
